@@ -48,11 +48,12 @@ def templates_for(tier, seed):
         u5 = list(fam.universe(5, 3, ("module", "function")))
         pad4 = list(fam.padded(4))
         rnd = random.Random(seed)
-        pick5 = rnd.sample(u5, 500)
-        pickc = rnd.sample(comp, 5000)
-        pickp = pad3 + rnd.sample(pad4, 600)
-        chosen = core + u4 + u4x + pick5 + pickc + mixed3 + mixed4 + pickp + res3 + res4
-        universe_note = {"core": len(core), "u4": len(u4), "u4x": len(u4x), "u5_universe": len(u5), "picked5": len(pick5), "composed_universe": len(comp), "picked_composed": len(pickc), "mixed_returns": len(mixed3) + len(mixed4), "padded_universe": len(pad3) + len(pad4), "picked_padded": len(pickp), "resumed_iterator": len(res3) + len(res4)}
+        pick5 = rnd.sample(u5, 400)
+        pickc = rnd.sample(comp, 2500)
+        pickp = pad3 + rnd.sample(pad4, 400)
+        pick4x = rnd.sample(u4x, 1200)
+        chosen = core + u4 + pick4x + pick5 + pickc + mixed3 + mixed4 + pickp + res3 + res4
+        universe_note = {"core": len(core), "u4": len(u4), "u4x": len(u4x), "picked4x": len(pick4x), "u5_universe": len(u5), "picked5": len(pick5), "composed_universe": len(comp), "picked_composed": len(pickc), "mixed_returns": len(mixed3) + len(mixed4), "padded_universe": len(pad3) + len(pad4), "picked_padded": len(pickp), "resumed_iterator": len(res3) + len(res4)}
     for d in chosen:
         tpls.append(mk(*d))
     return tpls, universe_note
@@ -121,7 +122,7 @@ def finish(rep, agg, note, tier):
         "oneliner.pending_nodes._PendingCompoundStmt._iter_branch / PendingIf / PendingWhile / PendingFor / PendingBreak / PendingContinue / PendingReturn / PendingFunctionDef / PendingClassDef (lowering under test)",
         "oneliner.presets.iter_wrapper (executed symbolically as part of the converted text)",
     ]
-    cov["bounds"] = "skeleton size <= 4 nodes exhaustive (thorough), 5 nodes sampled; composed family: interrupt-containing blocks of <= 3 nodes spliced into 27 loop/else/if contexts of up to 3 levels (6-10 nodes, depth <= 5) at module/function/class/method level (thorough: 5 000 of them per run, seed-rotated); mixed bare/valued returns (every proper subset of the returns of every function skeleton of 3-4 nodes); padded skeletons (a statement that lowers to nothing or to a constant before every statement); resumed iterators (loops over named iterator objects -- with generator-like close/send/throw that log -- which are read to the end after the skeleton); nesting depth <= 3 in the plain universe; schedule len(B) <= %d then False; every iterable yields 0..2 items; event budget 80" % (5 if tier == "quick" else 6)
+    cov["bounds"] = "skeleton size <= 4 nodes exhaustive (thorough), 5 nodes sampled; composed family: interrupt-containing blocks of <= 3 nodes spliced into 27 loop/else/if contexts of up to 3 levels (6-10 nodes, depth <= 5) at module/function/class/method level (thorough: 2 500 of them per run, seed-rotated); mixed bare/valued returns (every proper subset of the returns of every function skeleton of 3-4 nodes); padded skeletons (a statement that lowers to nothing or to a constant before every statement); resumed iterators (loops over named iterator objects -- with generator-like close/send/throw that log -- which are read to the end after the skeleton); nesting depth <= 3 in the plain universe; schedule len(B) <= %d then False; every iterable yields 0..2 items; event budget 80" % (5 if tier == "quick" else 6)
     cov["explanation"] = "one PEP-316 condition per (skeleton, semantic configuration): CrossHair/z3 explore every path of exec(source) and eval(converted) over the symbolic schedule and iterable lengths and compare the traces of marker/condition/iterator events and the return value"
     rep.assumptions += [
         "stubs: mark/cond/log/It are harness helpers injected as globals on both sides",
